@@ -266,9 +266,6 @@ func (lb *LoadBalancer) setupCircuitBreaker(cfg *config.Config) {
 	}
 
 	// Set defaults
-	if cbSettings.MaxRequests == 0 {
-		cbSettings.MaxRequests = 1
-	}
 	if cbSettings.Interval == 0 {
 		cbSettings.Interval = time.Minute
 	}
@@ -280,6 +277,11 @@ func (lb *LoadBalancer) setupCircuitBreaker(cfg *config.Config) {
 	}
 	if cbSettings.SuccessThreshold == 0 {
 		cbSettings.SuccessThreshold = 1
+	}
+	if cbSettings.MaxRequests == 0 {
+		// Enough trial requests to reach the success threshold, otherwise the
+		// breaker could never close again once it has opened
+		cbSettings.MaxRequests = cbSettings.SuccessThreshold
 	}
 
 	lb.circuitBreaker = circuitbreaker.NewCircuitBreaker(cbSettings)
